@@ -226,19 +226,36 @@ LIVE_FRONTENDS = ("raw", "buffered", "duck", "rwpair")
 
 
 def open_frontend(kind: str, sim: Sim, data: bytes | None = None, pipe: Pipe | None = None,
-                  policy: str = "tape", bufsize: int | None = None):
+                  policy: str = "tape", bufsize: int | None = None, preamble: bytes = b"",
+                  members: list | None = None):
     """Return (file_object, pipe_or_None) for a front end over ``data`` or a live pipe."""
     if kind == "bytesio":
         assert data is not None
-        return io.BytesIO(data), None
+        f = io.BytesIO(preamble + data)
+        f.seek(len(preamble))
+        return f, None
     if kind == "gzip":
         assert data is not None
-        comp = gzip.compress(data, mtime=0)
-        return gzip.GzipFile(fileobj=io.BytesIO(comp), mode="rb"), None
+        if members and len(data) > 1:
+            # a multi-member gzip file: the payload is split over several members
+            cuts = sorted({min(len(data), c) for c in members} | {len(data)})
+            comp = b""
+            prev = 0
+            for c in cuts:
+                comp += gzip.compress(data[prev:c], mtime=0)
+                prev = c
+        else:
+            comp = gzip.compress(data, mtime=0)
+        f = gzip.GzipFile(fileobj=io.BytesIO(comp), mode="rb")
+        return f, None
     if kind == "seekable_buffered":
         assert data is not None
-        raw = SeekableRaw(sim, data, policy)
-        return io.BufferedReader(raw, buffer_size=bufsize or io.DEFAULT_BUFFER_SIZE), raw.pipe
+        raw = SeekableRaw(sim, preamble + data, policy)
+        f = io.BufferedReader(raw, buffer_size=bufsize or io.DEFAULT_BUFFER_SIZE)
+        if preamble:
+            got = f.read(len(preamble))      # the caller consumed a preamble before handing the file over
+            assert got == preamble
+        return f, raw.pipe
     if pipe is None:
         pipe = Pipe(sim, data)
     pipe.policy = policy
